@@ -81,6 +81,10 @@ def hostile_fetch_bodies():
     m2 = m[:8] + struct.pack(">i", struct.unpack(">i", m[8:12])[0] + 3) + m[12:] + b"zzz"
     out.append(("trailing-bytes-in-message", fetch([(T1, [part(0, m2)])])))
     out.append(("magic-1", fetch([(T1, [part(0, kproto.encode_message(0, b"k", b"v", magic=1))])])))
+    # extreme high-watermarks on a partition that delivers nothing (the consumer stands at offset >= 1 there): any arithmetic on the
+    # field has to survive them
+    for hw in (-2 ** 63, -2 ** 63 + 1, 2 ** 63 - 1, -1):
+        out.append(("highwatermark-extreme", fetch([(T1, [part(0, b"", hw=hw), part(1, b"", hw=hw)])])))
     out.append(("offset-max", fetch([(T1, [part(0, kproto.encode_message(2 ** 63 - 1, b"k", b"v"))])])))
     out.append(("offset-min", fetch([(T1, [part(0, kproto.encode_message(-2 ** 63, b"k", b"v"))])])))
     # nesting
@@ -330,8 +334,14 @@ def oracle(case, recs, cl):
         # pool that lost a connection it once had is a different defect.
         connected_before = any(ev.name == "connect" and ev.args[1] != 0 for r in recs for ev in r.get("raw_events", []))
         refused_now = any(ev.name == "connect" and ev.args[1] == 0 for ev in last.get("raw_events", []))
+        # F24 (debug builds) is the addition `last.offset + 1` in a poll and the subtraction `offset - 1` at consumer creation; an
+        # overflow panic anywhere else is not that finding
+        f24_site = (b"attempt to add with overflow" in msg and last["op"].name == "poll") or \
+                   (b"attempt to subtract with overflow" in msg and last["op"].name == "consumer_build")
         for cls, pats in KNOWN:
             if b"available connection" in msg and connected_before and not refused_now:
+                continue
+            if cls.startswith("C13-offset-overflow-debug") and not f24_site:
                 continue
             if any(p in msg for p in pats):
                 fails.append("%s %s panicked: %s" % (cls, what, msg[:80].decode("latin-1")))
